@@ -20,15 +20,15 @@ import signatures
 
 # profiles of the harness that matter for each property
 PROFILES = {
-    "C01": ["mixed", "time", "maxfails", "cancel", "loss", "happy"],
-    "C02": ["mixed", "open", "variants", "mn", "retract", "loss"],
+    "C01": ["mixed", "time", "maxfails", "cancel", "loss", "happy", "timeretract"],
+    "C02": ["mixed", "open", "variants", "mn", "retract", "loss", "timeretract", "retract2"],
     "C03": ["mixed", "open", "maxfails", "happy", "cancel"],
     "C04": ["variants", "mixed", "cancel", "retract"],
-    "C05": ["variants", "mn", "retract", "time", "mixed", "cancel"],
+    "C05": ["variants", "mn", "retract", "time", "mixed", "cancel", "variants2", "timeretract"],
     "C06": ["retract", "loss", "mixed", "variants"],
     "C07": ["loss", "mn", "mixed", "maxfails"],
-    "C08": ["cancel", "retract", "mixed", "open", "mn"],
-    "C09": ["mixed", "retract", "cancel", "loss", "maxfails", "open", "stream", "mn", "time", "variants"],
+    "C08": ["cancel", "retract", "mixed", "open", "mn", "retract2"],
+    "C09": ["mixed", "retract", "cancel", "loss", "maxfails", "open", "stream", "mn", "time", "variants", "timeretract", "retract2", "variants2"],
     "C13": ["open", "stream", "maxfails", "mixed", "cancel"],
     "C14": ["maxfails", "mixed"],
 }
